@@ -10,6 +10,7 @@ import (
 	"sync"
 
 	biscuit "github.com/biscuit-auth/biscuit-go/v2"
+	"github.com/biscuit-auth/biscuit-go/v2/datalog"
 
 	"verif/internal/hx"
 	"verif/internal/refdl"
@@ -82,6 +83,8 @@ func c17Replay(hist string, short bool) ([]*biscuit.Biscuit, error) {
 		return nil, err
 	}
 	toks := []*biscuit.Biscuit{tok}
+	// one decoder value for the whole history, as a service would keep one around
+	dec := &biscuit.Unmarshaler{Symbols: &datalog.SymbolTable{}}
 	for k := 2; k < len(hist); k++ {
 		switch o := hist[k]; o {
 		case 'e', 'p', 'q':
@@ -96,7 +99,7 @@ func c17Replay(hist string, short bool) ([]*biscuit.Biscuit, error) {
 			var ser []byte
 			ser, err = tok.Serialize()
 			if err == nil {
-				tok, err = biscuit.Unmarshal(ser)
+				tok, err = dec.Unmarshal(ser)
 			}
 		}
 		if err != nil {
